@@ -32,6 +32,7 @@ func c07(c *Ctx) {
 	c04R4(c)
 	c19R2(c)
 	c07R7(c)
+	c07R8(c)
 }
 
 // R6: the pool sync always looks at the surplus. The trimming half of
@@ -790,4 +791,37 @@ func c07R7(c *Ctx) {
 		})
 	}
 	c.Floor("C07.R7", "poll conditions", 2, n)
+}
+
+// R8: ownership ends with the pod, whatever state the address is in. Set.Release hands every address
+// the set knows to IP.Release (which compares the owner); no other test — validity, status — stands in
+// front of it. An address that stays owned by a vanished pod is never disposed of, keeps its interface
+// from being deleted and is invisible to the balancer.
+func c07R8(c *Ctx) {
+	p := c.P
+	c.Rule("C07.R8", "Set.Release passes every address the set holds to IP.Release (the owner comparison is the only test); nothing about the address's status keeps a pod's ownership alive after the pod released it")
+	fn := p.Func(eniPkg, "Set.Release")
+	rel := p.Method(eniPkg, "IP", "Release")
+	if fn == nil || rel == nil {
+		c.Unres("C07.R8", "Set.Release / IP.Release", "not found")
+		return
+	}
+	info := fn.Info()
+	var okFlag types.Object
+	ast.Inspect(fn.Decl.Body, func(k ast.Node) bool {
+		if as, ok := k.(*ast.AssignStmt); ok && len(as.Lhs) == 2 && len(as.Rhs) == 1 {
+			if _, isIx := ast.Unparen(as.Rhs[0]).(*ast.IndexExpr); isIx {
+				okFlag = identObj(info, as.Lhs[1])
+			}
+		}
+		return true
+	})
+	sites := p.CallsTo([]*FuncInfo{fn}, rel)
+	if okFlag == nil || len(sites) != 1 {
+		c.Undec("C07.R8", "Set.Release: lookup and hand-over", p.Pos(fn.Decl), fn.Key(), "i, ok := s[ip]; i.Release(podID)", fmt.Sprintf("lookup flag found=%v, IP.Release calls=%d", okFlag != nil, len(sites)))
+		return
+	}
+	c.RequireReachedF("C07.R8", "Set.Release: an address the set holds reaches IP.Release", fn, fn.Decl.Body, sites[0].Call, "the set holds the address", func(e *FactEngine) (*Formula, error) {
+		return e.Cond(identFor(info, okFlag)), nil
+	})
 }
